@@ -14,7 +14,6 @@ import (
 	"fmt"
 	"os"
 	"runtime"
-	"runtime/pprof"
 	"sort"
 	"sync"
 
@@ -535,15 +534,6 @@ func (p probes) cfgLine(newState bool) string {
 }
 
 func main() {
-	if pf := os.Getenv("C04_PROF"); pf != "" {
-		fh, _ := os.Create(pf)
-		pprof.StartCPUProfile(fh)
-		defer pprof.StopCPUProfile()
-	}
-	realMain()
-}
-
-func realMain() {
 	f := lib.ParseFlags()
 	res := lib.NewResult("a case = one scenario on one state backend: node A stores a chain, then 1-2 rounds of (revert k blocks, follow a fork); " +
 		"after every round A is compared with a fresh node B that stored only the resulting chain (decoded database + full Reader API + restarted copies) " +
@@ -714,6 +704,5 @@ func realMain() {
 		}(sig, job)
 	}
 	wg2.Wait()
-	pprof.StopCPUProfile()
 	lib.Finish(f, res)
 }
